@@ -251,6 +251,14 @@ Proof.
   - destruct (find_lfeat s e (Some f)); reflexivity.
   - destruct (find_lfeat s e (Some f)) as [lf|]; [destruct (assoc_N fn (lf_data lf))|]; reflexivity.
   - reflexivity.
+  - (* LocalUnsubscribe *)
+    unfold local_unrequest. destruct (find_lfeat s e (Some f)) as [lf|]; [|reflexivity].
+    destruct (fa_dev r); [|reflexivity]. destruct (peer_by_addr s n); [|reflexivity].
+    simpl fst. apply kd_upd. intros x. reflexivity.
+  - (* LocalUnbind *)
+    unfold local_unrequest. destruct (find_lfeat s e (Some f)) as [lf|]; [|reflexivity].
+    destruct (fa_dev r); [|reflexivity]. destruct (peer_by_addr s n); [|reflexivity].
+    simpl fst. apply kd_upd. intros x. reflexivity.
 Qed.
 
 (* ---------- the write gate in closed form ---------- *)
@@ -515,6 +523,18 @@ Proof.
   - (* Resolve *)
     cbn [mon]. unfold advance. rewrite Hw. split; [reflexivity|]. cbn [step]. simpl.
     constructor; simpl; [reflexivity | exact (inv_auth _ _ I) | exact (inv_store _ _ I) | exact (inv_b _ _ I)].
+  - (* LocalUnsubscribe *)
+    cbn [mon]. unfold advance. rewrite Hw. split; [reflexivity|].
+    pose proof (neutral_ops_frame s (LocalUnsubscribe e f r) eq_refl) as Hf.
+    pose proof (neutral_ops_kd s (LocalUnsubscribe e f r) eq_refl) as Hk.
+    destruct (step s (LocalUnsubscribe e f r)) as [s1 out]. destruct Hf as [[Hbb _] _]. simpl fst in *.
+    constructor; simpl; [reflexivity | rewrite Hbb; exact (inv_auth _ _ I) | exact (storeok_kd _ _ _ Hk (inv_store _ _ I)) | exact Hb1].
+  - (* LocalUnbind *)
+    cbn [mon]. unfold advance. rewrite Hw. split; [reflexivity|].
+    pose proof (neutral_ops_frame s (LocalUnbind e f r) eq_refl) as Hf.
+    pose proof (neutral_ops_kd s (LocalUnbind e f r) eq_refl) as Hk.
+    destruct (step s (LocalUnbind e f r)) as [s1 out]. destruct Hf as [[Hbb _] _]. simpl fst in *.
+    constructor; simpl; [reflexivity | rewrite Hbb; exact (inv_auth _ _ I) | exact (storeok_kd _ _ _ Hk (inv_store _ _ I)) | exact Hb1].
 Qed.
 
 Theorem run_accepted_from ops : forall s m, Inv s m -> accepted (judge m (snd (run s ops))) = true.
